@@ -9,6 +9,13 @@ RES = re.compile(r'^clone=(\S+) copy=(\S+) orig=(\S+) moved=(\S+)$')
 
 def gen(rng, sc, n):
     lines, meta = [], {}
+    import random
+    r0 = random.Random('C11-directed')
+    for i in range(6):                              # messages carrying both user-defined fields without a position: the known finding
+        mt2, items = cc.gen_message(r0, sc, p_opt=1.0, msgtype=b'D')
+        l = cc.spec_line('clone', mt2, items, r0)
+        lines.append(l)
+        meta[l] = (mt2, items)
     for i in range(n):
         mt, items = cc.gen_message(rng, sc, p_opt=rng.choice((0.0, 0.3, 0.7, 1.0)))
         l = cc.spec_line('clone', mt, items, rng)
